@@ -96,8 +96,12 @@ for Crossbeam<'a, ItemType, BUFFER_SIZE, MAX_STREAMS> {
 
     #[inline(always)]
     fn send(&self, item: ItemType) -> keen_retry::RetryConsumerResult<(), ItemType, ()> {
+        #[cfg(feature = "verif")]
+        crate::verif::yield_point("xb.len");
         match self.tx.len() {
             len_before if len_before <= 2 => {
+                #[cfg(feature = "verif")]
+                crate::verif::yield_point("xb.try_send");
                 let ret = self.tx.try_send(item);
                 self.streams_manager.wake_stream(0);
                 ret
@@ -115,6 +119,8 @@ for Crossbeam<'a, ItemType, BUFFER_SIZE, MAX_STREAMS> {
     // this method uses a little hack due to crossbeam not having zero-copy APIs...
     // taking the crossbeam channel out of Tier-1 channels for this lib
     fn send_with<F: FnOnce(&mut ItemType)>(&self, setter: F) -> keen_retry::RetryConsumerResult<(), F, ()> {
+        #[cfg(feature = "verif")]
+        crate::verif::yield_point("xb.is_full");
         if self.tx.is_full() {
             return keen_retry::RetryResult::Transient { input: setter, error: () }
         }
@@ -137,6 +143,8 @@ for Crossbeam<'a, ItemType, BUFFER_SIZE, MAX_STREAMS> {
                              Fut: Future<Output=&'a mut ItemType>>
                             (&'a self,
                              setter: F) -> keen_retry::RetryConsumerResult<(), F, ()> {
+        #[cfg(feature = "verif")]
+        crate::verif::yield_point("xb.is_full");
         if self.tx.is_full() {
             return keen_retry::RetryResult::Transient { input: setter, error: () }
         }
@@ -175,6 +183,8 @@ Crossbeam<'a, ItemType, BUFFER_SIZE, MAX_STREAMS> {
 
     #[inline(always)]
     fn consume(&self, stream_id: u32) -> Option<ItemType> {
+        #[cfg(feature = "verif")]
+        crate::verif::yield_point("xb.try_recv");
         match self.rx.try_recv() {
             Ok(event) => {
                 Some(event)
